@@ -21,7 +21,7 @@ SPECDIR = os.path.join(vlib.BUILD, "spec816")
 SNAPDIR = os.path.join(vlib.COQ, "Snapshot")
 if "Snapshot" not in vlib.COQ_ARGS:
     vlib.COQ_ARGS += ["-Q", SNAPDIR, "Snapshot"]
-PROOF_FILES = ["C01Base", "C01Shift", "C01OpsA", "C01OpsB", "C01OpsC", "C01OpsD", "C01OpsE", "C01OpsF", "C01OpsG", "C01OpsH", "C01Props"]
+PROOF_FILES = ["C01Base", "C01Shift", "C01OpsA", "C01OpsB", "C01OpsC", "C01OpsD", "C01OpsE", "C01OpsF", "C01OpsG", "C01OpsH", "C01Flow", "C01Props"]
 CORPUS = os.path.join(vlib.ROOT, "corpus", "C01", "cases.txt")
 SNAPSHOT = os.path.join(vlib.COQ, "Snapshot", "GenCpu65.v")
 
@@ -288,7 +288,7 @@ def live_replay(ck):
     rc, out, _, _ = vlib.coqc(names["C01Shift"], timeout=1200)
     if rc != 0:
         return False, "C01Shift against the regenerated model:\n" + out[-1500:], 0
-    ops = [n for n in PROOF_FILES if n.startswith("C01Ops")]
+    ops = [n for n in PROOF_FILES if n.startswith("C01Ops") or n == "C01Flow"]
     res = vlib.parallel([(lambda n=n: vlib.coqc(names[n], timeout=2400)) for n in ops], workers=8)
     for n, (rc, out, _, _) in zip(ops, res):
         if rc != 0:
